@@ -2,8 +2,12 @@
 from __future__ import annotations
 
 import ast
+import decimal
+import fractions
+import math
+import operator
 
-from sa import pat, source
+from sa import minieval, pat, source
 from sa.cfg import cfg_of, guards, holds
 from sa.source import AnchorMissing, arg_of, bind_args, dotted, inline_node, is_self_attr, last_attr, local_defs, params_of, short, u, walk_body
 from sa.sym import comparison, parse_expr, rat_equal, ratfun
@@ -72,6 +76,334 @@ def _empty_list_local(f, name) -> bool:
     return len(b) == 1 and isinstance(b[0].value, ast.List) and not b[0].value.elts
 
 
+# ---- local value evaluation ---------------------------------------------------------------------------------------------------------------------
+# sa/minieval.py knows neither math.ceil / fractions.Fraction / decimal.Decimal nor "this expression raises ZeroDivisionError" as an OUTCOME (it reports CannotEval), and it has no
+# statement level. The three rules below that are decided on VALUES (ingest-percentage cut-off, progress of an empty partition, who gets which parameter source) need exactly that,
+# so a small evaluator lives here. Like minieval it only interprets EXTRACTED pure expressions / straight-line + if / try code on representative values; no repository code is called.
+
+
+class _Cannot(Exception):
+    """the extracted code uses something this evaluator does not interpret: the rule reports 'inconclusive', never a verdict."""
+
+
+class _CannotStmt(_Cannot):
+    """... a statement kind (loop, with, ...)."""
+
+    def __init__(self, node):
+        super().__init__(f"statement kind {type(node).__name__}")
+        self.node = node
+
+
+class _Raised(Exception):
+    """the evaluated code raises (name of the exception class)."""
+
+    def __init__(self, name, msg=""):
+        super().__init__(f"{name}: {msg}" if msg else name)
+        self.name = name
+
+
+class _Opaque:
+    """a value the evaluator could not compute; using it is _Cannot, merely storing it is fine."""
+
+
+_OPAQUE = _Opaque()
+_NUM = (int, float, fractions.Fraction, decimal.Decimal)
+_LIB = {"math.ceil": math.ceil, "math.floor": math.floor, "math.trunc": math.trunc, "fractions.Fraction": fractions.Fraction, "decimal.Decimal": decimal.Decimal, "int": int, "float": float,
+        "str": str, "repr": repr, "round": round, "abs": abs, "min": min, "max": max, "bool": bool}
+_ARITH = {ast.Add: operator.add, ast.Sub: operator.sub, ast.Mult: operator.mul, ast.Div: operator.truediv, ast.FloorDiv: operator.floordiv, ast.Mod: operator.mod, ast.Pow: operator.pow}
+_CMPOP = {ast.Eq: operator.eq, ast.NotEq: operator.ne, ast.Lt: operator.lt, ast.LtE: operator.le, ast.Gt: operator.gt, ast.GtE: operator.ge, ast.Is: operator.is_, ast.IsNot: operator.is_not,
+          ast.In: lambda a, b: a in b, ast.NotIn: lambda a, b: a not in b}
+_BASES = {"ZeroDivisionError": ("ArithmeticError",), "OverflowError": ("ArithmeticError",), "InvalidOperation": ("ArithmeticError",), "KeyError": ("LookupError",), "IndexError": ("LookupError",)}
+
+
+def _guarded(fn, *args):
+    try:
+        return fn(*args)
+    except (ArithmeticError, TypeError, ValueError) as x:  # ZeroDivisionError, OverflowError, decimal.InvalidOperation, unsupported operand types, int("x")
+        raise _Raised(type(x).__name__, str(x))
+
+
+def _val(e, env, imports=None, hooks=None):
+    """value of an extracted expression. env: dotted text of a name / attribute chain ('all_bulks', 'self.total_bulks') -> value; imports: the module's import aliases (to resolve
+    `Fraction` / `fractions.Fraction`); hooks: dotted callee -> function(call node, env) for the calls a rule wants to interpret itself."""
+    imports, hooks = imports or {}, hooks or {}
+    if isinstance(e, ast.Constant):
+        return e.value
+    if isinstance(e, (ast.Name, ast.Attribute)):
+        k = dotted(e)
+        if k is not None and k in env:
+            if env[k] is _OPAQUE:
+                raise _Cannot(f"`{k}` has no representative value")
+            return env[k]
+        raise _Cannot(f"`{u(e)[:60]}` is not bound")
+    if isinstance(e, ast.BinOp) and type(e.op) in _ARITH:
+        a, b = _val(e.left, env, imports, hooks), _val(e.right, env, imports, hooks)
+        if not (isinstance(a, _NUM) and isinstance(b, _NUM)):
+            raise _Cannot(f"`{u(e)[:60]}`: non-numeric operands")
+        return _guarded(_ARITH[type(e.op)], a, b)
+    if isinstance(e, ast.UnaryOp):
+        v = _val(e.operand, env, imports, hooks)
+        if isinstance(e.op, ast.Not):
+            return not v
+        if isinstance(v, _NUM) and isinstance(e.op, (ast.USub, ast.UAdd)):
+            return -v if isinstance(e.op, ast.USub) else +v
+        raise _Cannot(f"`{u(e)[:60]}`")
+    if isinstance(e, ast.BoolOp):
+        r = None
+        for x in e.values:
+            r = _val(x, env, imports, hooks)
+            if bool(r) != isinstance(e.op, ast.And):
+                return r
+        return r
+    if isinstance(e, ast.Compare):
+        left = _val(e.left, env, imports, hooks)
+        for op, c in zip(e.ops, e.comparators):
+            right = _val(c, env, imports, hooks)
+            if not _guarded(_CMPOP[type(op)], left, right):
+                return False
+            left = right
+        return True
+    if isinstance(e, ast.IfExp):
+        return _val(e.body if _val(e.test, env, imports, hooks) else e.orelse, env, imports, hooks)
+    if isinstance(e, ast.Call):
+        d = dotted(e.func)
+        if d is not None and d in hooks:
+            return hooks[d](e, env)
+        head, _, rest = (d or "").partition(".")
+        full = (imports[head] + ("." + rest if rest else "")) if head in imports else d
+        if full in _LIB and not e.keywords and not any(isinstance(a, ast.Starred) for a in e.args):
+            vals = [_val(a, env, imports, hooks) for a in e.args]
+            if all(isinstance(v, _NUM + (str,)) for v in vals):
+                return _guarded(_LIB[full], *vals)
+        raise _Cannot(f"call `{u(e)[:60]}`")
+    raise _Cannot(f"{type(e).__name__} `{u(e)[:60]}`")
+
+
+def _exec(stmts, env, imports=None, hooks=None, keep=()):
+    """run extracted straight-line / if / try statements on representative values: ('return', value) or ('fall', None); raises _Raised when the code raises and _Cannot when it uses
+    something that is not interpreted. Assignments to names and attribute chains update env (a value that cannot be computed is stored as opaque); names in `keep` stay as preset
+    (the rule fixed their value: e.g. the result of a call into the repository). Expression statements (logging, calls made for their effect) are skipped."""
+    for s in stmts:
+        if isinstance(s, (ast.Expr, ast.Pass, ast.Assert, ast.Import, ast.ImportFrom, ast.Global, ast.Nonlocal)):
+            continue
+        if isinstance(s, (ast.Assign, ast.AnnAssign)):
+            if s.value is None:
+                continue
+            try:
+                v = _val(s.value, env, imports, hooks)
+            except _Cannot:
+                v = _OPAQUE
+            for t in (s.targets if isinstance(s, ast.Assign) else [s.target]):
+                k = dotted(t)
+                if k is not None:
+                    if k not in keep:
+                        env[k] = v
+                else:
+                    for x in ast.walk(t):
+                        if isinstance(x, ast.Name) and isinstance(x.ctx, ast.Store) and x.id not in keep:
+                            env[x.id] = _OPAQUE
+        elif isinstance(s, ast.AugAssign):
+            k = dotted(s.target)
+            if k is None:
+                continue
+            try:
+                cur = ast.copy_location(ast.BinOp(left=ast.parse(k, mode="eval").body, op=s.op, right=s.value), s)
+                v = _val(cur, env, imports, hooks)
+            except _Cannot:
+                v = _OPAQUE
+            if k not in keep:
+                env[k] = v
+        elif isinstance(s, ast.If):
+            r = _exec(s.body if _val(s.test, env, imports, hooks) else s.orelse, env, imports, hooks, keep)
+            if r[0] != "fall":
+                return r
+        elif isinstance(s, ast.Return):
+            return "return", (_val(s.value, env, imports, hooks) if s.value is not None else None)
+        elif isinstance(s, ast.Raise):
+            x = s.exc.func if isinstance(s.exc, ast.Call) else s.exc
+            raise _Raised((dotted(x) or "?").rsplit(".", 1)[-1] if x is not None else "?")
+        elif isinstance(s, ast.Try):
+            try:
+                r = _exec(s.body, env, imports, hooks, keep)
+                if r[0] == "fall":
+                    r = _exec(s.orelse, env, imports, hooks, keep)
+            except _Raised as x:
+                names = (x.name,) + _BASES.get(x.name, ()) + ("Exception", "BaseException")
+                r = None
+                for h in s.handlers:
+                    hs = [h.type] if h.type is not None and not isinstance(h.type, ast.Tuple) else (h.type.elts if h.type is not None else [])
+                    if h.type is None or any((dotted(t) or "").rsplit(".", 1)[-1] in names for t in hs):
+                        r = _exec(h.body, env, imports, hooks, keep)
+                        break
+                if r is None:
+                    _exec(s.finalbody, env, imports, hooks, keep)
+                    raise
+            f = _exec(s.finalbody, env, imports, hooks, keep)
+            if f[0] != "fall":
+                return f
+            if r[0] != "fall":
+                return r
+        else:
+            raise _CannotStmt(s)
+    return "fall", None
+
+
+# ingest-percentage cut-off: (bulks of the group, ingest-percentage as float_param() delivers it) -> ceil(p% of the bulks), computed by hand / exactly. The first rows are products
+# that are integers mathematically but not in binary floating point (1500 * 2.2 / 100 == 33.00000000000001).
+_CUTOFF_ROWS = [(1500, 2.2, 33), (3000, 1.1, 33), (2500, 0.28, 7), (100000, 0.07, 70), (200, 50.0, 100), (7, 100.0, 7), (3, 33.4, 2), (10, 25.0, 3), (1, 0.5, 1), (0, 100.0, 0),
+                (10 ** 12, 100.0, 10 ** 12), (999, 99.9, 999)]
+
+
+assert all(math.ceil(fractions.Fraction(str(p_)) * n_ / 100) == w_ for n_, p_, w_ in _CUTOFF_ROWS)
+
+_L = "esrally/track/loader.py"
+_SAMPLE = "/data/corpus/documents.json"
+
+
+def _own_params(f):
+    """parameters of a function / method without self / cls."""
+    ps = params_of(f)
+    static = any(dotted(d) == "staticmethod" for d in getattr(f, "decorator_list", []))
+    return ps[1:] if ps and ps[0] in ("self", "cls") and not static else ps
+
+
+def _str_value(e, name):
+    """value of a file-name expression over one path parameter, evaluated for a sample path (None when it cannot be evaluated)."""
+    try:
+        v = minieval.ev(e, {name: _SAMPLE})
+    except minieval.CannotEval:
+        return None
+    return v if isinstance(v, str) else None
+
+
+def _removed_files(io_, f, depth=0):
+    """names of the files an io function deletes for the sample data path (directly through os.remove / os.unlink or through another function of the module it hands its path to)."""
+    ps = _own_params(f)
+    out = set()
+    if len(ps) != 1 or depth > 3:
+        return out
+    for c in source.calls_in(f):
+        d = dotted(c.func)
+        if d in ("os.remove", "os.unlink") and len(c.args) == 1:
+            out.add(_str_value(c.args[0], ps[0]))
+        elif d is not None and len(c.args) == 1 and pat.is_(c.args[0], "V_p", binds={"p": ps[0]}):
+            callee = io_.get(d, required=False)
+            if isinstance(callee, source.FUNC_TYPES):
+                out |= _removed_files(io_, callee, depth + 1)
+    return out
+
+
+def _stale_table_rule(chk, ldr, io_):
+    """O3.10 (F25): O3.7 decides that a table is trusted on its modification time alone (valid iff it exists and is not older than the data file) and that a valid table is neither
+    rebuilt nor counted. A data file that Rally itself (re)creates - decompressing an archive restores the ARCHIVED mtime, a download may do the same - can therefore meet the table of
+    its predecessor and look older than it. Necessary: whatever (re)creates the document file also removes an existing table of that file before the table is prepared."""
+    chk.rule("O3.10", "offset tables are only used with the file they were built from: the table's file name is the same for writer, reader and remover, and every statement of the corpus "
+             "preparation that (re)creates the document file (decompress into it, download to a target that may be it) removes an existing offset table of that file on every normal "
+             "path before the table is prepared", 4,
+             "an updated corpus extracted from a tar archive keeps the archive's (older) mtime: the predecessor's table looks valid, the line count is not checked and every client whose "
+             "slice starts beyond 50,000 lines seeks to the OLD file's offsets - documents ingested twice and never")
+    # the table's file name, as the factories of the table class compute it for a data file
+    FT = io_.cls("FileOffsetTable")
+    finit = _meth(io_, FT, "__init__")
+    opened = [c.args[0].attr for m in io_.methods(FT).values() for c in source.calls_in(m) if dotted(c.func) == "open" and c.args and is_self_attr(c.args[0])]
+    tparam = [x.value.id for x in walk_body(finit) if isinstance(x, ast.Assign) and opened and is_self_attr(x.targets[0], opened[0]) and isinstance(x.value, ast.Name)]
+    if not tparam:
+        raise AnchorMissing("FileOffsetTable: constructor parameter holding the table's own path")
+    names = {}
+    for m in io_.methods(FT).values():
+        for r in [x for x in walk_body(m) if isinstance(x, ast.Return) and isinstance(x.value, ast.Call) and dotted(x.value.func) in ("cls", FT.name)]:
+            a = bind_args(r.value, finit).get(tparam[0])
+            ps = _own_params(m)
+            if a is not None and len(ps) == 1:
+                names[m.name] = _str_value(a, ps[0])
+    rm = io_.get("remove_file_offset_table", required=False)
+    removed = _removed_files(io_, rm) if isinstance(rm, source.FUNC_TYPES) else set()
+    table = next(iter(names.values()), None)
+    ok = len(names) >= 2 and table is not None and set(names.values()) == {table} and removed == {table}
+    chk.ob("O3.10", "writer, reader and remover of the table use the same file name for a data file", ok, rm if rm is not None else FT, f"factories: {names}; removed: {sorted(map(str, removed))}",
+           key=f"{_I}:remove_file_offset_table:table-name")
+    if not isinstance(io_.get("prepare_file_offset_table", required=False), source.FUNC_TYPES):
+        raise AnchorMissing(f"{_I}: prepare_file_offset_table")
+    DP = ldr.cls("DocumentSetPreparator")
+    meths = ldr.methods(DP)
+
+    def io_call(c, fname):
+        """c is a call of the io module's function `fname` (through whatever alias the loader imports the module under)."""
+        return isinstance(c.func, ast.Attribute) and c.func.attr == fname and isinstance(c.func.value, ast.Name) and ldr.imports.get(c.func.value.id, "").endswith("utils.io")
+
+    def logging_only(st):
+        return isinstance(st, ast.Expr) and isinstance(st.value, ast.Call) and any(isinstance(x, ast.Name) and x.id in ("logging", "logger") or isinstance(x, ast.Attribute) and x.attr == "logger"
+                                                                                    for x in ast.walk(st.value.func))
+
+    def removals(f, x, depth=0):
+        """statements of f after which no offset table of the file named by the local / parameter x exists: a call of the io module's remover with x - alone or under a test that
+        this very table exists - or a call of an own method that does that with the parameter x is bound to on each of its normal paths."""
+        out = []
+        for st in walk_body(f):
+            if not (isinstance(st, ast.Expr) and isinstance(st.value, ast.Call)):
+                continue
+            c = st.value
+            if io_call(c, "remove_file_offset_table") and len(c.args) == 1 and pat.is_(c.args[0], "V_x", binds={"x": x}) and table is not None and removed == {table}:
+                p = source.parent(st)
+                t = p.test if isinstance(p, ast.If) and not p.orelse and [s_ for s_ in p.body if not logging_only(s_)] == [st] else None
+                if isinstance(t, ast.Call) and dotted(t.func) in ("os.path.exists", "os.path.isfile", "os.path.lexists") and len(t.args) == 1 and _str_value(t.args[0], x) == table:
+                    out.append(p)
+                else:
+                    out.append(st)
+            elif depth == 0 and isinstance(c.func, ast.Attribute) and isinstance(c.func.value, ast.Name) and c.func.value.id == "self" and c.func.attr in meths:
+                h = meths[c.func.attr]
+                q = [k_ for k_, v in bind_args(c, h).items() if pat.is_(v, "V_x", binds={"x": x})]
+                if len(q) == 1:
+                    inner = removals(h, q[0], depth + 1)
+                    gh = cfg_of(h)
+                    if inner and gh.must_pass(gh.entry, [gh.node_of(i_) for i_ in inner], normal_only=True):
+                        out.append(st)
+        return out
+
+    # own methods that prepare the table of their path parameter
+    preparers = {}
+    for m in meths.values():
+        for c in source.calls_in(m):
+            if io_call(c, "prepare_file_offset_table") and c.args and isinstance(c.args[0], ast.Name) and c.args[0].id in _own_params(m):
+                preparers[m.name] = c.args[0].id
+    n_sites = 0
+    for m in meths.values():
+        if m.name in preparers:
+            continue
+        # role: the document path of this method is what it hands to the table preparation
+        psites = {}
+        for c in source.calls_in(m):
+            a = None
+            if isinstance(c.func, ast.Attribute) and isinstance(c.func.value, ast.Name) and c.func.value.id == "self" and c.func.attr in preparers:
+                a = bind_args(c, meths[c.func.attr]).get(preparers[c.func.attr])
+            elif io_call(c, "prepare_file_offset_table") and c.args:
+                a = c.args[0]
+            if a is not None:
+                if not isinstance(a, ast.Name):
+                    raise AnchorMissing(f"{m.name}: the path handed to the offset-table preparation is not a plain local ({u(a)})")
+                psites.setdefault(a.id, []).append(c)
+        g = cfg_of(m) if psites else None
+        for x, pcs in psites.items():
+            # locals that may hold the document path (`target_path = doc_path` in one arm)
+            alias = {x} | {t.id for st in walk_body(m) if isinstance(st, ast.Assign) and pat.is_(st.value, "V_x", binds={"x": x}) for t in st.targets if isinstance(t, ast.Name)}
+            # (re)creation of the file: a call on a collaborator object (self.<attribute>.<method>: the decompressor, the downloader) that is handed the path as the place to write to
+            creators = [c for c in source.calls_in(m) if isinstance(c.func, ast.Attribute) and is_self_attr(c.func.value)
+                        and any(isinstance(a, ast.Name) and a.id in alias for a in list(c.args) + [k_.value for k_ in c.keywords])]
+            inv = [g.node_of(i_) for i_ in removals(m, x)]
+            pn = [g.node_of(c) for c in pcs]
+            for c in creators:
+                n_sites += 1
+                cn = g.node_of(c)
+                after = bool(inv) and g.must_pass(cn, inv, exits=pn, normal_only=True)
+                before = bool(inv) and g.dominated_by_nodes(cn, inv) and not any(g.path_exists(p_, cn, avoid=inv) for p_ in pn)
+                what = f"{c.func.value.attr}.{c.func.attr}"
+                chk.ob("O3.10", f"{m.name}: `{what}(..)` (re)creates the document file -> an existing offset table of it is removed before the table is prepared", after or before, c,
+                       "" if after or before else f"a path from `{short(c, 70)}` reaches the table preparation with the predecessor's table in place",
+                       key=f"{_L}:{DP.name}.{m.name}:{what}:stale-offset-table")
+    if n_sites == 0:
+        raise AnchorMissing("DocumentSetPreparator: no statement that (re)creates a document file was located")
+
+
 def run(chk):
     repo = chk.repo
     pr, io_ = repo.module(_P), repo.module(_I)
@@ -81,7 +413,11 @@ def run(chk):
         "client ranges share a boundary whatever the rounding does; docs / lines / offset derived consistently with one factor k in {1,2}; both consumers of bounds() (reader factory and "
         "bulk counting) receive role-identical arguments, and the values flow positionally to the reader / slice parameters of the same meaning; every source read is bounded by "
         "min(bulk size, limit - progress) with progress advanced by what was read; pairing factor agrees across readers; conflict ids index only the emitted prefix; bulk counting is a "
-        "ceiling division and the ingest cut-off ceil(all * p / 100); offset-table protocol."
+        "ceiling division; offset-table protocol. Decided on VALUES (extracted code evaluated by a small local evaluator, no repository code is run): the ingest cut-off equals the exact "
+        "ceil(all * p / 100) for bulk counts / fractional percentages whose product is an integer mathematically but not in binary floating point; progress is current / total and is "
+        "defined for a group without documents (total 0); for every conflict mode that builds an id list, what partition() hands to a client was created for that client (the id "
+        "window lives in the source's reader). Path rule: every (re)creation of a document file is followed (or preceded) by the removal of that file's offset table before the table is "
+        "prepared, because O3.7 trusts a table on its mtime alone."
     )
     chk.not_decided = "round(total/n * n) == total for all n (float), byte-exactness of tell() cookies for multi-byte text, mmap vs text-mode newline agreement, order of co-located clients."
 
@@ -357,7 +693,7 @@ def run(chk):
 
     # ---- O3.6 conflict ids ---------------------------------------------------------------------------------------------------------------------------------
     chk.rule("O3.6", "conflict path: only under id_up_to > 0; index in [0, id_up_to - 1] (randint(0, up - 1) / round((up - 1) * (1 - r)) with r = min(.., 1)); id_up_to grows by one only on the "
-             "non-conflict path; ids are offset by the slice offset", 6,
+             "non-conflict path; ids are offset by the slice offset; with conflicts enabled the id window (one per parameter source) serves one client", 6,
              "a conflicting action refers to an id this client has not emitted yet (or to another client's id)")
     GA = pr.cls("GenerateActionMetaData")
     gn = _meth(pr, GA, "__next__")
@@ -407,6 +743,73 @@ def run(chk):
     bcall = [c for c in source.calls_in(cdr) if last_attr(c.func) == "build_conflicting_ids"]
     ok = bool(bcall) and [u(a) for a in bcall[0].args] == ["id_conflicts", "num_docs", "offset"]
     chk.ob("O3.6", "id list built for this slice's (docs, offset)", ok, bcall[0] if bcall else cdr, "")
+    # the emitted prefix [0, id_up_to) is an attribute of the action/meta-data generator, i.e. of ONE reader of ONE partition source; it is the prefix "this client has emitted" only
+    # if no other client draws bulks from the same source. Decided on values: the body of the task-level partition() is evaluated for every conflict mode for which
+    # build_conflicting_ids() builds an id list; what it hands to the client must have been created for this call (not an object made once in the constructor and given to every
+    # co-located client).
+    BIP, PBS = pr.cls("BulkIndexParamSource"), pr.cls("PartitionBulkIndexParamSource")
+    part, bi_init = _meth(pr, BIP, "partition"), _meth(pr, BIP, "__init__")
+    enum_names = set()
+    for n in walk_body(bc):
+        if isinstance(n, ast.Compare) and len(n.ops) == 1:
+            for a_, b_ in ((n.left, n.comparators[0]), (n.comparators[0], n.left)):
+                if pat.is_(a_, "V_c", binds={"c": bcp[0]}) and isinstance(b_, ast.Attribute) and dotted(b_.value) is not None:
+                    enum_names.add(dotted(b_.value))
+    if len(enum_names) != 1:
+        raise AnchorMissing(f"build_conflicting_ids(): the conflict-mode enumeration its first parameter is compared with (found {sorted(enum_names)})")
+    EN = enum_names.pop()
+    members = [t.id for x in pr.cls(EN).body if isinstance(x, ast.Assign) for t in x.targets if isinstance(t, ast.Name)]
+    menv = {f"{EN}.{m_}": m_ for m_ in members}
+    windowed = []
+    for m_ in members:
+        try:
+            r_ = _exec(bc.body, {bcp[0]: m_, **menv}, pr.imports)
+            if not (r_[0] == "return" and r_[1] is None):
+                windowed.append(m_)
+        except _CannotStmt as x:
+            if not isinstance(x.node, (ast.For, ast.While)):
+                raise AnchorMissing(f"build_conflicting_ids(): {x}")
+            windowed.append(m_)  # reached the loop that builds the id list
+        except (_Cannot, _Raised) as x:
+            raise AnchorMissing(f"build_conflicting_ids() cannot be evaluated for mode {m_}: {x}")
+    mode_attr = sorted({x.targets[0].attr for x in walk_body(bi_init) if isinstance(x, ast.Assign) and is_self_attr(x.targets[0]) and dotted(x.value) in menv})
+    shared = sorted({x.targets[0].attr for x in walk_body(bi_init) if isinstance(x, ast.Assign) and is_self_attr(x.targets[0]) and isinstance(x.value, ast.Call) and last_attr(x.value.func) == PBS.name})
+    if len(mode_attr) != 1 or not windowed or len(windowed) == len(members):
+        raise AnchorMissing(f"BulkIndexParamSource: conflict-mode attribute {mode_attr}, modes with an id list {windowed} of {members}")
+
+    class _Src:
+        def __init__(self, origin, fresh):
+            self.origin, self.fresh = origin, fresh
+
+    def _own(h):
+        def call(c, env):
+            env2 = {k_: v for k_, v in env.items() if "." in k_}
+            for k_, a in bind_args(c, h).items():
+                try:
+                    env2[k_] = _val(a, env, pr.imports, hooks)
+                except _Cannot:
+                    env2[k_] = _OPAQUE
+            return _exec(h.body, env2, pr.imports, hooks)[1]
+        return call
+
+    hooks = {PBS.name: lambda c, env: _Src(short(c, 60), True)}
+    hooks.update({f"self.{h.name}": _own(h) for h in pr.methods(BIP).values() if h is not part and h.name != "__init__"})
+    pp = _own_params(part)
+    bad_modes, handed = [], set()
+    try:
+        for m_ in windowed:
+            env = {f"self.{mode_attr[0]}": m_, **menv, **{f"self.{a_}": _Src(f"self.{a_} (created once in __init__)", False) for a_ in shared}, **{p_: i_ for i_, p_ in enumerate(pp)}}
+            v = _exec(part.body, env, pr.imports, hooks)[1]
+            if not isinstance(v, _Src):
+                raise _Cannot(f"what partition() returns for mode {m_} is not a partition parameter source the rule can follow")
+            handed.add(v.origin)
+            if not v.fresh:
+                bad_modes.append(m_)
+        chk.ob("O3.6", "with id conflicts enabled each client draws from an id window of its own: partition() hands every client a parameter source created for it", not bad_modes, part,
+               f"conflict modes {bad_modes}: every co-located client receives {sorted(handed)} - one reader, one id_up_to: a client's conflicting ids are drawn from ids the GROUP emitted"
+               if bad_modes else f"modes {windowed}: {sorted(handed)}", key=f"{_P}:BulkIndexParamSource.partition:shared-id-window")
+    except (_Cannot, _Raised) as x:
+        chk.unknown("O3.6", f"BulkIndexParamSource.partition() cannot be evaluated on values: {x}", part)
 
     # ---- O3.9 every reader is consumed exactly once ---------------------------------------------------------------------------------------------------------
     chk.rule("O3.9", "reader factory: corpora are rotated (not filtered) for staggering; a reader is created for every document set with a non-empty share; the staggering loop moves every "
@@ -481,10 +884,11 @@ def run(chk):
     ldr_ = repo.module("esrally/track/loader.py")
     chk.use(ldr_)
     line_count_rule(chk, "O3.7", ldr_)
+    _stale_table_rule(chk, ldr_, io_)
 
     # ---- O3.8 bulk counting and percentage cut-off --------------------------------------------------------------------------------------------------------------
-    chk.rule("O3.8", "per file the bulk count is the ceiling division of the slice's documents by the bulk size; total_bulks == ceil(all_bulks * p / 100); params() raises StopIteration at "
-             "current == total unless looped and increments current once per returned bulk", 5,
+    chk.rule("O3.8", "per file the bulk count is the ceiling division of the slice's documents by the bulk size; total_bulks == ceil(all_bulks * p / 100) exactly (also for fractional p); "
+             "params() raises StopIteration at current == total unless looped and increments current once per returned bulk; progress is current / total and is defined for a total of 0", 5,
              "with ingest percentage p the group stops one bulk early/late; without it the tail of the slice is never ingested")
     # roles: the bulk counter is the local number_of_bulks() returns; the slice's document count is position 1 of its bounds() unpack
     bulkv = _returned_name(nb)
@@ -516,8 +920,47 @@ def run(chk):
     chk.ob("O3.8", "bulks per file == ceil(docs / bulk size)", ok, acc[0] if acc else nb, "")
     tb = [x for x in walk_body(ii) if isinstance(x, ast.Assign) and is_self_attr(x.targets[0], "total_bulks")]
     allv = _target_name(c2[0])  # role: the local holding the counter's result
-    ok = bool(tb) and isinstance(tb[0].value, ast.Call) and dotted(tb[0].value.func) == "math.ceil" and len(tb[0].value.args) == 1 and allv is not None and rat_equal(tb[0].value.args[0], parse_expr(f"{allv} * self.ingest_percentage / 100")) and local_defs(ii).get(allv) is c2[0]
-    chk.ob("O3.8", "total_bulks == ceil(all_bulks * p / 100)", ok, tb[0] if tb else ii, u(tb[0].value) if tb else "")
+    # role: the attribute holding the ingest percentage = the constructor parameter that receives the value read from the user's "ingest-percentage" setting
+    BI = pr.cls("BulkIndexParamSource")
+    binit, pinit = _meth(pr, BI, "__init__"), _meth(pr, PB, "__init__")
+    src_attr = [x.targets[0].attr for x in walk_body(binit) if isinstance(x, ast.Assign) and is_self_attr(x.targets[0]) and isinstance(x.value, ast.Call)
+                and any(source.is_const(a, "ingest-percentage") for a in list(x.value.args) + [k_.value for k_ in x.value.keywords])]
+    ctor = [c for c in source.calls_in(binit) if last_attr(c.func) == PB.name]
+    pct_param = [k_ for k_, v in bind_args(ctor[0], pinit).items() if src_attr and is_self_attr(v, src_attr[0])] if ctor else []
+    pct_attr = [x.targets[0].attr for x in walk_body(pinit) if isinstance(x, ast.Assign) and is_self_attr(x.targets[0]) and pct_param and pat.is_(x.value, "V_p", binds={"p": pct_param[0]})]
+    if len(pct_attr) != 1:
+        raise AnchorMissing(f"the attribute of {PB.name} that stores the 'ingest-percentage' setting (found {pct_attr})")
+
+    def cutoff(nbulks, p):
+        """value of total_bulks after _init_internal_params() for a group with `nbulks` bulks and ingest percentage p (the counter's result is fixed, everything else is evaluated)."""
+        env = {allv: nbulks, f"self.{pct_attr[0]}": p}
+        _exec(ii.body, env, pr.imports, keep=(allv,))
+        if env.get("self.total_bulks", _OPAQUE) is _OPAQUE:
+            raise _Cannot("no computable value is assigned to total_bulks")
+        return env["self.total_bulks"]
+
+    # decided on VALUES: the extracted computation is evaluated for bulk counts / percentages whose exact product is (and is not) an integer; binary floating point gets the first rows wrong
+    ok, detail, empty_total = bool(tb) and allv is not None and local_defs(ii).get(allv) is c2[0], "total_bulks is not computed from the counter's result", None
+    if ok:
+        try:
+            detail = u(tb[0].value)
+            for nb_, p_, want in _CUTOFF_ROWS:
+                try:
+                    got = cutoff(nb_, p_)
+                except _Raised as x:
+                    got = f"raises {x}"
+                if isinstance(got, bool) or not isinstance(got, _NUM) or got != want:
+                    ok, detail = False, f"{nb_} bulks at {p_}%: {got!r} instead of {want}   [{u(tb[0].value)}]"
+                    break
+            try:
+                empty_total = cutoff(0, 100.0)
+            except _Raised:
+                pass
+        except _Cannot as x:
+            ok = None
+            chk.unknown("O3.8", f"total_bulks cannot be evaluated on values: {x}", tb[0])
+    if ok is not None:
+        chk.ob("O3.8", "total_bulks == ceil(all_bulks * p / 100)", ok, tb[0] if tb else ii, detail)
     pm = _meth(pr, PB, "params")
     gpm = cfg_of(pm)
     stop = [x for x in walk_body(pm) if isinstance(x, ast.Raise) and "StopIteration" in u(x.exc)]
@@ -530,9 +973,38 @@ def run(chk):
     ok = any(isinstance(x, ast.Call) and u(x.func) == "self._init_internal_params" and holds(x, "self.current_bulk == 0") for x in walk_body(pm))
     chk.ob("O3.8", "readers and totals initialised before the first bulk", ok, pm, "")
     pc = pr.methods(PB).get("percent_completed")
-    r = [x for x in walk_body(pc) if isinstance(x, ast.Return)] if pc else []
-    chk.ob("O3.8", "progress == current / total bulks", bool(r) and rat_equal(r[0].value, parse_expr("self.current_bulk / self.total_bulks")), pc if pc else PB, "")
 
+    def progress(cur, tot):
+        return _exec(pc.body, {"self.current_bulk": cur, "self.total_bulks": tot}, pr.imports)[1]
+
+    ok, detail = pc is not None, "" if pc is not None else "no percent_completed"
+    if pc is not None:
+        try:
+            for cur, tot in ((0, 1), (1, 4), (3, 4), (4, 4), (1, 3), (33, 33), (17, 10 ** 12)):
+                try:
+                    got = progress(cur, tot)
+                except _Raised as x:
+                    got = f"raises {x}"
+                if isinstance(got, bool) or not isinstance(got, _NUM) or abs(got - cur / tot) > 1e-12:
+                    ok, detail = False, f"bulk {cur} of {tot}: {got!r} instead of {cur / tot}"
+                    break
+        except _Cannot as x:
+            ok = None
+            chk.unknown("O3.8", f"percent_completed cannot be evaluated on values: {x}", pc)
+    if ok is not None:
+        chk.ob("O3.8", "progress == current / total bulks", ok, pc if pc else PB, detail)
+    # a group whose slice holds no document has total_bulks == ceil(0 * p / 100) == 0 after its first params() call (which ends in StopIteration as it must); the next co-located
+    # client's schedule then reads percent_completed (hasattr() / the loop of ScheduleHandle): an exception there is not a StopIteration, it aborts the race for ALL clients
+    if pc is not None and empty_total is not None:
+        try:
+            try:
+                got, ok = progress(0, empty_total), True
+            except _Raised as x:
+                got, ok = f"raises {x}", False
+            chk.ob("O3.8", "progress of a group without documents is defined (no division by its total of 0 bulks)", ok, pc,
+                   f"all_bulks == 0 -> total_bulks == {empty_total!r}; percent_completed at bulk 0 of {empty_total!r}: {got!r}", key=f"{_P}:{PB.name}.percent_completed:empty-partition")
+        except _Cannot as x:
+            chk.unknown("O3.8", f"percent_completed cannot be evaluated for an empty partition: {x}", pc)
 
 from sa.selftest import V  # noqa: E402
 
@@ -550,7 +1022,34 @@ VARIANTS = [
     V("fast path drops the action line for the first doc", "break", _P, "        for doc in docs:\n            current_bulk.append(action_metadata_line)\n            current_bulk.append(doc)\n        return len(docs), current_bulk", "        for doc in docs:\n            if current_bulk:\n                current_bulk.append(action_metadata_line)\n            current_bulk.append(doc)\n        return len(docs), current_bulk", "O3.4"),
     V("seed m3: randint upper bound inclusive", "break", _P, "                    idx = self.randint(0, self.id_up_to - 1)", "                    idx = self.randint(0, self.id_up_to)", "O3.6"),
     V("ids without the slice offset", "break", _P, "        all_ids[i] = \"%010d\" % (offset + i)", "        all_ids[i] = \"%010d\" % i", "O3.6"),
-    V("floor for the percentage", "break", _P, "        self.total_bulks = math.ceil((all_bulks * self.ingest_percentage) / 100)", "        self.total_bulks = math.floor((all_bulks * self.ingest_percentage) / 100)", "O3.8"),
+    V("floor for the percentage", "break", _P, "        self.total_bulks = math.ceil(fractions.Fraction(str(self.ingest_percentage)) * all_bulks / 100)",
+      "        self.total_bulks = math.floor(fractions.Fraction(str(self.ingest_percentage)) * all_bulks / 100)", "O3.8"),
+    # F27 (repaired by dffd3c1): the cut-off is computed exactly
+    V("F27 reverted: cut-off in binary floating point", "break", _P, "        self.total_bulks = math.ceil(fractions.Fraction(str(self.ingest_percentage)) * all_bulks / 100)",
+      "        self.total_bulks = math.ceil((all_bulks * self.ingest_percentage) / 100)", "O3.8"),
+    V("F27: exact fraction of the float itself (not of the decimal the user wrote)", "break", _P, "        self.total_bulks = math.ceil(fractions.Fraction(str(self.ingest_percentage)) * all_bulks / 100)",
+      "        self.total_bulks = math.ceil(fractions.Fraction(self.ingest_percentage) * all_bulks / 100)", "O3.8"),
+    # F26 (repaired by 5186571): progress of a group without documents
+    V("F26 reverted: progress divides by a total of 0 bulks", "break", _P, "        return self.current_bulk / self.total_bulks if self.total_bulks else 1.0", "        return self.current_bulk / self.total_bulks", "O3.8"),
+    V("F26: guard tests the wrong counter", "break", _P, "        return self.current_bulk / self.total_bulks if self.total_bulks else 1.0", "        return self.current_bulk / self.total_bulks if self.current_bulk else 1.0", "O3.8"),
+    # F25 (repaired by d8403e6): a (re)created document file never meets its predecessor's offset table
+    V("F25 reverted: decompressed file keeps the old table", "break", _L,
+      "                self.decompressor.decompress(archive_path, doc_path, document_set.uncompressed_size_in_bytes)\n                self.invalidate_file_offset_table(doc_path)\n",
+      "                self.decompressor.decompress(archive_path, doc_path, document_set.uncompressed_size_in_bytes)\n", "O3.10"),
+    V("F25 reverted: downloaded file keeps the old table", "break", _L,
+      "                    self.downloader.download(document_set.base_url, target_path, expected_size)\n                    self.invalidate_file_offset_table(doc_path)\n",
+      "                    self.downloader.download(document_set.base_url, target_path, expected_size)\n", "O3.10"),
+    V("F25 reverted: bundled archive", "break", _L,
+      "                    self.decompressor.decompress(archive_path, doc_path, document_set.uncompressed_size_in_bytes)\n                    self.invalidate_file_offset_table(doc_path)\n",
+      "                    self.decompressor.decompress(archive_path, doc_path, document_set.uncompressed_size_in_bytes)\n", "O3.10"),
+    V("F25: invalidation removes the table only when there is none", "break", _L, "        if os.path.exists(f\"{document_file_path}.offset\"):\n            io.remove_file_offset_table(document_file_path)",
+      "        if not os.path.exists(f\"{document_file_path}.offset\"):\n            io.remove_file_offset_table(document_file_path)", "O3.10"),
+    V("F25: invalidation looks for another file", "break", _L, "        if os.path.exists(f\"{document_file_path}.offset\"):\n            io.remove_file_offset_table(document_file_path)",
+      "        if os.path.exists(f\"{document_file_path}.offsets\"):\n            io.remove_file_offset_table(document_file_path)", "O3.10"),
+    V("F25: the archive's table is invalidated instead of the document's", "break", _L,
+      "                self.decompressor.decompress(archive_path, doc_path, document_set.uncompressed_size_in_bytes)\n                self.invalidate_file_offset_table(doc_path)\n",
+      "                self.decompressor.decompress(archive_path, doc_path, document_set.uncompressed_size_in_bytes)\n                self.invalidate_file_offset_table(archive_path)\n", "O3.10"),
+    V("F25: remover deletes another file name", "break", _I, "        os.remove(f\"{data_file_path}.offset\")", "        os.remove(f\"{data_file_path}.offsets\")", "O3.10"),
     V("partial bulk not counted", "break", _P, "            if rest > 0:\n                bulks += 1\n    return bulks", "    return bulks", "O3.8"),
     V("seed m1: offsets accumulated from len(line)", "break", _I, "                        file_offset_table.add_offset(line_number, data_file.tell())", "                        file_offset_table.add_offset(line_number, sum(map(len, [line])))", "O3.7"),
     V("staggering skips the last corpus", "break", _P, "    reordered_corpora = corpora[start_corpora_id:] + corpora[:start_corpora_id]", "    reordered_corpora = corpora[start_corpora_id:]", "O3.9"),
@@ -559,5 +1058,28 @@ VARIANTS = [
     # preserving
     V("remaining local", "keep", _P, "        lines = self.source.readlines(min(self.bulk_size, self.number_of_lines - self.current_line))", "        remaining = self.number_of_lines - self.current_line\n        lines = self.source.readlines(min(self.bulk_size, remaining))"),
     V("k * docs", "keep", _P, "    lines = docs * source_lines_per_doc", "    lines = source_lines_per_doc * docs"),
+    V("F27 respelled: share computed first", "keep", _P, "        self.total_bulks = math.ceil(fractions.Fraction(str(self.ingest_percentage)) * all_bulks / 100)",
+      "        share = fractions.Fraction(str(self.ingest_percentage)) / 100\n        self.total_bulks = math.ceil(all_bulks * share)"),
+    V("F27 respelled: ceiling as negated floor division of exact operands", "keep", _P, "        self.total_bulks = math.ceil(fractions.Fraction(str(self.ingest_percentage)) * all_bulks / 100)",
+      "        self.total_bulks = -((-all_bulks * fractions.Fraction(repr(self.ingest_percentage))) // 100)"),
+    V("F27 respelled: full ingest short-cut", "keep", _P, "        self.total_bulks = math.ceil(fractions.Fraction(str(self.ingest_percentage)) * all_bulks / 100)",
+      "        if self.ingest_percentage == 100:\n            self.total_bulks = all_bulks\n        else:\n            self.total_bulks = math.ceil(fractions.Fraction(str(self.ingest_percentage)) * all_bulks / 100)"),
+    V("F26 respelled: guard clause", "keep", _P, "        return self.current_bulk / self.total_bulks if self.total_bulks else 1.0",
+      "        if self.total_bulks == 0:\n            return 1.0\n        return self.current_bulk / self.total_bulks"),
+    V("F26 respelled: exception handler", "keep", _P, "        return self.current_bulk / self.total_bulks if self.total_bulks else 1.0",
+      "        try:\n            return self.current_bulk / self.total_bulks\n        except ZeroDivisionError:\n            return 1.0"),
+    V("F26 respelled: positive-total test, other arm order", "keep", _P, "        return self.current_bulk / self.total_bulks if self.total_bulks else 1.0",
+      "        return 1.0 if self.total_bulks <= 0 else self.current_bulk / self.total_bulks"),
+    V("F25 respelled: helper inlined at the call", "keep", _L,
+      "                self.decompressor.decompress(archive_path, doc_path, document_set.uncompressed_size_in_bytes)\n                self.invalidate_file_offset_table(doc_path)\n",
+      "                self.decompressor.decompress(archive_path, doc_path, document_set.uncompressed_size_in_bytes)\n                if os.path.isfile(doc_path + \".offset\"):\n"
+      "                    io.remove_file_offset_table(doc_path)\n"),
+    V("F25 respelled: table removed before the archive is unpacked", "keep", _L,
+      "                    self.decompressor.decompress(archive_path, doc_path, document_set.uncompressed_size_in_bytes)\n                    self.invalidate_file_offset_table(doc_path)\n",
+      "                    self.invalidate_file_offset_table(doc_path)\n                    self.decompressor.decompress(archive_path, doc_path, document_set.uncompressed_size_in_bytes)\n"),
+    V("F25 respelled: helper with a local and a log line", "keep", _L,
+      "        if os.path.exists(f\"{document_file_path}.offset\"):\n            io.remove_file_offset_table(document_file_path)",
+      "        table = \"%s.offset\" % document_file_path\n        if os.path.exists(f\"{document_file_path}.offset\"):\n            logging.getLogger(__name__).info(\"Removing [%s].\", table)\n"
+      "            io.remove_file_offset_table(document_file_path)"),
     V("ceil written with math.ceil", "keep", _P, "            complete_bulks, rest = (num_docs // bulk_size, num_docs % bulk_size)\n            bulks += complete_bulks\n            if rest > 0:\n                bulks += 1", "            bulks += math.ceil(num_docs / bulk_size)"),
 ]
